@@ -21,7 +21,7 @@
 (*                 :470-534 (sliding window: append to deque, refit)       *)
 (*   Predict       predict / predict_proba / predict_freq                  *)
 (*   Query, Update stream strategies and budget managers                   *)
-(*   SetParams(p)  BaseEstimator.set_params                                *)
+(*   SetParams     BaseEstimator.set_params (new values, new caller dicts) *)
 (*   Fresh         sklearn.base.clone (a new unfitted object)              *)
 (*                                                                         *)
 (* Code-shaped deviations (all FALSE in the reference):                    *)
